@@ -40,6 +40,8 @@ def fault_sites(block):
             out.append(('concat_dest_wide', i))
         if n.op in 'w~&|^n+-*<>=xc':
             out.append(('param_not_none', i))
+            for j in range(4):
+                out.append(('param_falsy%d' % j, i))
         if n.op in 'm@':
             out.append(('mem_param_none', i))
             out.append(('mem_param_short', i))
@@ -124,6 +126,9 @@ def apply_fault(block, kind, idx):
         block.logic.add(LogicNet('c', None, n.args, (d,)))
     elif kind == 'param_not_none':
         replace(LogicNet(n.op, (0,), n.args, n.dests))
+    elif kind.startswith('param_falsy'):
+        # a stray parameter that is falsy but not None
+        replace(LogicNet(n.op, [(), 0, '', False][int(kind[-1])], n.args, n.dests))
     elif kind == 'mem_param_none':
         replace(LogicNet(n.op, None, n.args, n.dests))
     elif kind == 'mem_param_short':
